@@ -25,6 +25,9 @@ type Options struct {
 	ArgValue func(t *rapid.T, g *Gen, arg *ast.ArgumentDefinition) string
 	// NoDupSpread: never spread the same fragment twice in one selection set
 	NoDupSpread bool
+	// Resolver (optional) tells which fields have resolvers; with Defer set, selections below the
+	// root prefer them (only resolver fields are ever deferred by gqlgen)
+	Resolver func(typ, field string) bool
 }
 
 // Op is a generated operation.
@@ -55,6 +58,8 @@ type Gen struct {
 	nvar    int
 	nalias  int
 	deferN  int
+	// forceDefer: the next fragment gets @defer and its body prefers resolver fields
+	forceDefer bool
 }
 
 // Generate draws one operation.
@@ -134,7 +139,15 @@ func (g *Gen) directives() string {
 }
 
 func (g *Gen) deferDir() string {
-	if !g.Opt.Defer || rapid.IntRange(0, 2).Draw(g.t, "defer?") == 0 {
+	if !g.Opt.Defer {
+		return ""
+	}
+	if g.forceDefer {
+		g.forceDefer = false
+		g.deferN++
+		return rapid.SampledFrom([]string{" @defer", " @defer(label: \"first\")", " @defer(if: true)"}).Draw(g.t, "forceddefer")
+	}
+	if rapid.IntRange(0, 2).Draw(g.t, "defer?") == 0 {
 		return ""
 	}
 	g.deferN++
@@ -222,7 +235,10 @@ func (g *Gen) selectionSet(typ *ast.Definition, depth int, isRoot bool) string {
 			break
 		}
 		choice := rapid.IntRange(0, 9).Draw(g.t, "sel")
-		if g.Opt.Defer && !isRoot && choice >= 3 && choice <= 5 && rapid.Bool().Draw(g.t, "fragbias") {
+		if g.Opt.Defer && !isRoot && g.deferN == 0 && depth < g.Opt.MaxDepth && g.budget > 0 && typ.Kind == ast.Object {
+			choice = 7 // the first opportunity below the root always carries a @defer
+			g.forceDefer = true
+		} else if g.Opt.Defer && !isRoot && choice >= 3 && choice <= 5 && rapid.Bool().Draw(g.t, "fragbias") {
 			choice = 7 + (choice-3)%3 // more fragments (the carriers of @defer) below the root
 		}
 		if isRoot && g.Schema.Mutation == typ && choice >= 6 {
@@ -234,7 +250,17 @@ func (g *Gen) selectionSet(typ *ast.Definition, depth int, isRoot bool) string {
 				continue
 			}
 			pool := fields
-			if depth < g.Opt.MaxDepth && rapid.Bool().Draw(g.t, "composite?") {
+			if g.Opt.Resolver != nil && g.Opt.Defer && !isRoot && typ.Kind == ast.Object && rapid.IntRange(0, 3).Draw(g.t, "resolver?") != 0 {
+				var rs []*ast.FieldDefinition
+				for _, f := range fields {
+					if g.Opt.Resolver(typ.Name, f.Name) && (depth < g.Opt.MaxDepth || !isComposite(g.Schema.Types[f.Type.Name()])) {
+						rs = append(rs, f)
+					}
+				}
+				if len(rs) > 0 {
+					pool = rs
+				}
+			} else if depth < g.Opt.MaxDepth && rapid.Bool().Draw(g.t, "composite?") {
 				var comp []*ast.FieldDefinition
 				for _, f := range fields {
 					if isComposite(g.Schema.Types[f.Type.Name()]) {
@@ -261,7 +287,12 @@ func (g *Gen) selectionSet(typ *ast.Definition, depth int, isRoot bool) string {
 			conds := g.typeConditions(typ)
 			cond := ""
 			target := typ
-			if rapid.IntRange(0, 3).Draw(g.t, "cond?") != 0 {
+			forced := g.forceDefer
+			if forced {
+				g.forceDefer = false
+				g.deferN++
+			}
+			if !forced && rapid.IntRange(0, 3).Draw(g.t, "cond?") != 0 {
 				cond = conds[rapid.IntRange(0, len(conds)-1).Draw(g.t, "cond")]
 				target = g.Schema.Types[cond]
 			}
@@ -271,6 +302,11 @@ func (g *Gen) selectionSet(typ *ast.Definition, depth int, isRoot bool) string {
 				s += " on " + cond
 			}
 			dd := ""
+			if forced {
+				dd = rapid.SampledFrom([]string{" @defer", " @defer(label: \"first\")", " @defer(if: true)"}).Draw(g.t, "forceddefer")
+				parts = append(parts, s+dd+" "+body)
+				continue
+			}
 			if !isRoot {
 				dd = g.deferDir()
 			}
